@@ -1593,3 +1593,45 @@ func SMTScript(asserts []*Term, extra []string, named map[string]*Term) string {
 
 // noLiftBound: do not split selects on ite conditions when the index mentions quantified variables
 var noLiftBound = os.Getenv("GOVC_NOLIFT_BOUND") != ""
+
+// abstractMul replaces every product of two non-constant operands by an application of an uninterpreted
+// (commutative by argument ordering) function. A VC that is valid under this abstraction is valid.
+func abstractMul(ts []*Term) []*Term {
+	cache := map[int]*Term{}
+	var rec func(t *Term) *Term
+	rec = func(t *Term) *Term {
+		if len(t.Args) == 0 {
+			return t
+		}
+		if r, ok := cache[t.id]; ok {
+			return r
+		}
+		args := make([]*Term, len(t.Args))
+		ch := false
+		for i, a := range t.Args {
+			args[i] = rec(a)
+			if args[i] != a {
+				ch = true
+			}
+		}
+		var r *Term
+		if t.Op == "bvmul" && len(args) == 2 && !args[0].IsConst() && !args[1].IsConst() {
+			a, b := args[0], args[1]
+			if b.id < a.id {
+				a, b = b, a
+			}
+			r = App(fmt.Sprintf("absmul%d", t.Sort.W), t.Sort, a, b)
+		} else if !ch {
+			r = t
+		} else {
+			r = rebuild(t, args)
+		}
+		cache[t.id] = r
+		return r
+	}
+	out := make([]*Term, len(ts))
+	for i, t := range ts {
+		out[i] = rec(t)
+	}
+	return out
+}
